@@ -4,6 +4,9 @@ Domain   generated trees (depth <= 5, empty files and directories, names with sp
          characters), generated prior histories (none, single, multi-generation, nested at any directory, created
          in any order), tree edits in between, and every `create` of the history observed: folder mode with any
          format list and -n, or -sf with 1-3 files/folders inside the root.
+         Later additions: -sf selections that overlap or name the root itself, relative and non-normalised -sf spellings,
+         names starting with two dots or holding a backslash directly in a history root, files recorded in 2-3 formats,
+         altered and sealed again (every requested, already recorded format must be on the failed record).
 Oracle   the harness's own model of the tree (it wrote every byte) gives the expected record set; the manifests
          written by the observed run (after-snapshot minus before-snapshot of all ascmhl folders) are read with the
          independent XML reader; union of records resolved against each manifest's own history root must equal
